@@ -139,6 +139,12 @@ func normalizeValue(v string) string {
 }
 
 func runDriver(repoDir string, rr *replayResult, oblName string, o *options) {
+	runGoTestDriver(repoDir, rr, oblName, "TestGovcReplay", nil, 60)
+}
+
+// runGoTestDriver injects the driver file as an in-package test through `go test -overlay` (nothing is written into
+// the repository) and runs the named test.
+func runGoTestDriver(repoDir string, rr *replayResult, oblName, testName string, extraEnv []string, timeoutS int) {
 	src, err := os.ReadFile(rr.Driver)
 	if err != nil {
 		rr.Note += err.Error()
@@ -166,12 +172,13 @@ func runDriver(repoDir string, rr *replayResult, oblName string, o *options) {
 	ovData, _ := json.Marshal(ov)
 	ovFile := filepath.Join(tmp, "overlay.json")
 	os.WriteFile(ovFile, ovData, 0o644)
-	ctx, cancel := context.WithTimeout(context.Background(), 180*time.Second)
+	ctx, cancel := context.WithTimeout(context.Background(), time.Duration(timeoutS+120)*time.Second)
 	defer cancel()
-	args := []string{"test", "-overlay", ovFile, "-vet=off", "-v", "-count=1", "-timeout", "60s", "-run", "TestGovcReplay", "./" + rr.Package}
+	args := []string{"test", "-overlay", ovFile, "-vet=off", "-v", "-count=1", "-timeout", fmt.Sprintf("%ds", timeoutS), "-run", "^" + testName + "$", "./" + rr.Package}
 	cmd := exec.CommandContext(ctx, "go", args...)
 	cmd.Dir = repoDir
 	cmd.Env = append(os.Environ(), "GOFLAGS=-mod=mod", "GOPROXY=off", "GOSUMDB=off", "GOTOOLCHAIN=local", "GOVC_REPLAY_INPUT="+inFile)
+	cmd.Env = append(cmd.Env, extraEnv...)
 	var out bytes.Buffer
 	cmd.Stdout = &out
 	cmd.Stderr = &out
